@@ -95,14 +95,11 @@ func TestVerif(t *testing.T) {
 	}
 	if c.Replay != "" {
 		var h rh.History
-		if err := c.ReadReplay(&h); err != nil || len(h.Ops) == 0 {
-			// a failure of the concurrent phase has no operation history: re-run the phase
-			for _, f := range rh.ConcurrentSameSlot(60, 50000) {
-				c.Fail(f.Sig, f.Detail, "concurrent same-slot phase")
-				fmt.Printf("replay: %s: %s\n", f.Sig, f.Detail)
-			}
-			rh.WriteCases(c, nil)
+		if rh.ReplayOther(c) {
 			return
+		}
+		if err := c.ReadReplay(&h); err != nil {
+			t.Fatal(err)
 		}
 		o := rh.RunFixed(t, h.Name, h.Profile, h.Pools, h.Ops, mon, 1)
 		add(o)
@@ -132,6 +129,8 @@ func TestVerif(t *testing.T) {
 			c.Fail(f.Sig, f.Detail, "concurrent same-slot phase: 4 goroutines advertise sequences 1..4 of one origin for one key while RemoveRoutesFromPeer scans the table")
 		}
 		c.Count("concurrent-same-slot-phase")
+		// agent-level layer: real agents, ROUTE_ADVERTISE frames through the dispatcher, real disconnect path
+		rh.AgentPhase(c)
 	}
 	if c.Thorough() && c.Replay == "" {
 		for _, f := range rh.Stress(c.Rand.Fork(), 8, 3000) {
